@@ -111,7 +111,9 @@ def status_class(st):
         return "2xx"
     if code.startswith("5"):
         return "5xx"
-    return code
+    if code in ("304", "404", "405", "409", "412", "415", "423", "507"):
+        return code
+    return "4xx" if code.startswith("4") else code  # as xv.env.mhttp.status_class
 
 
 def listing(srv, col):
